@@ -53,11 +53,11 @@ func (dc *DocumentChunker) ChunkDocument(doc *model.Document) *ChunkCollection {
 	// Build section context from headings
 	toc := doc.TableOfContents()
 	currentSection := []string{}
-	currentHeadingLevel := 0
+	sectionLevels := []int{}
 
 	// Process each page
 	for _, page := range doc.Pages {
-		pageChunks := dc.chunkPage(page, docTitle, &currentSection, &currentHeadingLevel, toc, &chunkIndex)
+		pageChunks := dc.chunkPage(page, docTitle, &currentSection, &sectionLevels, toc, &chunkIndex)
 		chunks = append(chunks, pageChunks...)
 	}
 
@@ -70,7 +70,7 @@ func (dc *DocumentChunker) ChunkDocument(doc *model.Document) *ChunkCollection {
 }
 
 // chunkPage chunks a single page
-func (dc *DocumentChunker) chunkPage(page *model.Page, docTitle string, currentSection *[]string, currentHeadingLevel *int, toc []model.TOCEntry, chunkIndex *int) []*Chunk {
+func (dc *DocumentChunker) chunkPage(page *model.Page, docTitle string, currentSection *[]string, sectionLevels *[]int, toc []model.TOCEntry, chunkIndex *int) []*Chunk {
 	var chunks []*Chunk
 
 	if page == nil {
@@ -100,7 +100,7 @@ func (dc *DocumentChunker) chunkPage(page *model.Page, docTitle string, currentS
 
 				// Update section path
 				headingLevel := getHeadingLevel(e.Text, toc, page.Number)
-				updateSectionPath(currentSection, currentHeadingLevel, headingLevel, e.Text)
+				enterSection(currentSection, sectionLevels, headingLevel, e.Text)
 
 				// Create heading chunk
 				chunk := dc.createHeadingChunk(e.Text, docTitle, *currentSection, headingLevel, page.Number, chunkIndex)
@@ -120,7 +120,7 @@ func (dc *DocumentChunker) chunkPage(page *model.Page, docTitle string, currentS
 			flushTextBlock()
 
 			// Update section path
-			updateSectionPath(currentSection, currentHeadingLevel, e.Level, e.Text)
+			enterSection(currentSection, sectionLevels, e.Level, e.Text)
 
 			// Create heading chunk
 			chunk := dc.createChunkFromHeading(e, docTitle, *currentSection, page.Number, chunkIndex)
@@ -454,6 +454,22 @@ func updateSectionPath(sectionPath *[]string, currentLevel *int, newLevel int, h
 	// Add new section
 	*sectionPath = append(*sectionPath, headingText)
 	*currentLevel = newLevel
+}
+
+// enterSection updates the section path for a heading of the given level. It
+// keeps the level of every open section, so that a heading closes exactly the
+// open sections of the same or a deeper level, also when levels were skipped
+// (H1, H3, H3 gives [H1 H3] for the second H3, not [H1 H3 H3]).
+func enterSection(sectionPath *[]string, levels *[]int, newLevel int, headingText string) {
+	headingText = strings.TrimSpace(headingText)
+
+	for len(*levels) > 0 && len(*sectionPath) > 0 && (*levels)[len(*levels)-1] >= newLevel {
+		*levels = (*levels)[:len(*levels)-1]
+		*sectionPath = (*sectionPath)[:len(*sectionPath)-1]
+	}
+
+	*sectionPath = append(*sectionPath, headingText)
+	*levels = append(*levels, newLevel)
 }
 
 // appendUnique appends an item to a slice only if not already present
